@@ -24,6 +24,10 @@ import LbfgsbVerif.Proofs.C17
 import LbfgsbVerif.Props.C04
 import LbfgsbVerif.Props.C05
 import LbfgsbVerif.Proofs.Scale
+import LbfgsbVerif.Model.Utils
+import LbfgsbVerif.Props.C01
+import LbfgsbVerif.Props.C16
+import Mathlib.Tactic.Positivity
 
 namespace Lbfgsb.C17
 open Lbfgsb
@@ -124,6 +128,58 @@ theorem scaler_equivalence (u : User α ε) (o : Oracles α δ) (c : Cfg α) (s 
     RelE (fun p q => p.1 = q.1) (minimize u o c)
       (minimize (scaledUser u s) o { c with hasScaler := false }) :=
   minimize_scaled (fun a => lt_irrefl a) u o c _ ⟨rfl, hS, hck, hft, hm, hU, hsc, hmul1⟩
+
+/-! ### the packaged scaler (`get_gradient_projection_unit_scaling`, Model/Utils.lean), ordered field -/
+section packaged
+variable {K : Type} [Field K] [LinearOrder K] [IsStrictOrderedRing K]
+
+theorem foldl_fmax_ge (v : Vec K) (acc : K) : acc ≤ v.foldl (fun a b => fmax a (fabs b)) acc := by
+  induction v generalizing acc with
+  | nil => exact le_refl _
+  | cons b bs ih =>
+    simp only [List.foldl_cons]
+    refine le_trans ?_ (ih _)
+    unfold fmax; split
+    · exact le_of_lt ‹_›
+    · exact le_refl _
+
+theorem maxAbs_nonneg (v : Vec K) : 0 ≤ maxAbs v := foldl_fmax_ge v 0
+
+theorem fabs_sub_comm (a b : K) : fabs (a - b) = fabs (b - a) := by
+  rw [C16.fabs_eq, C16.fabs_eq, abs_sub_comm]
+
+theorem maxAbs_vsub_comm (a b : Vec K) : maxAbs (vsub a b) = maxAbs (vsub b a) := by
+  unfold maxAbs
+  generalize (0 : K) = acc
+  induction a generalizing b acc with
+  | nil => cases b <;> simp [vsub, vzip]
+  | cons x xs ih =>
+    cases b with
+    | nil => simp [vsub, vzip]
+    | cons y ys =>
+      simp only [vsub, vzip, List.foldl_cons] at ih ⊢
+      rw [fabs_sub_comm x y]
+      exact ih ys _
+
+/-- **C17 (6)** the packaged scaler returns a strictly positive factor — `1` at a stationary start,
+the inverse of the projected-gradient norm otherwise: the scaled problem starts with a projected
+gradient of unit size. -/
+theorem unit_scaling_pos (x g lb ub : Vec K) :
+    0 < unitScaling x g lb ub ∧
+    unitScaling x g lb ub = (if projgr x g lb ub = 0 then 1 else 1 / projgr x g lb ub) := by
+  have hcomm : maxAbs (vsub x (clip (vsub x g) lb ub)) = projgr x g lb ub := by
+    unfold projgr; exact maxAbs_vsub_comm _ _
+  have hnn := maxAbs_nonneg (vsub x (clip (vsub x g) lb ub))
+  unfold unitScaling
+  simp only [C01.feq_zero_iff, hcomm] at hnn ⊢
+  refine ⟨?_, trivial⟩
+  split
+  · exact one_pos
+  · rename_i hne
+    have : 0 < projgr x g lb ub := lt_of_le_of_ne hnn (Ne.symm hne)
+    positivity
+
+end packaged
 
 /-! ### Non-vacuity: the ℤ example of C05 (scaler returning 3) meets the hypotheses, and the two
 runs return the same result -/
